@@ -30,8 +30,9 @@ ASSUMPTIONS = [
 BOUNDS = {
     "quick": "shape/: vectors of 2 slots (kind in {-D,-I,-isystem,-include,unknown flag,file} x attached/detached, concrete "
              "representative values incl. '=', spaces, quotes, inner dashes) + one of 55 catalogue flags at every position; "
-             "value/: one detached option value as an arbitrary string |v| <= 3 next to each of 9 hazardous flags",
-    "thorough": "shape/: 3 slots; value/: all 46 flags, |v| <= 4",
+             "value/: one detached option value as an arbitrary string |v| <= 3 next to each of 9 hazardous flags; "
+             "override/: every sequence of 3 options from 10 -D/-U spellings over the macros A, B, AB, an unmodelled flag at every position",
+    "thorough": "shape/: 3 slots; value/: all 46 flags, |v| <= 4; override/: sequences of 4",
 }
 EXPLANATION = (
     "For every slot-kind/form assignment CrossHair explores the real parse_args; detached option values are symbolic strings, so "
@@ -46,7 +47,7 @@ LAST = {}
 CATALOGUE = [
     ["-g3"], ["-ggdb"], ["-gdwarf-4"], ["-gsplit-dwarf"], ["-g"], ["-O2"], ["-Ofast"], ["-O"], ["-Wall"], ["-W"], ["-w"],
     ["-std=c++17"], ["-MF", "x.d"], ["-MD"], ["-MT", "t"], ["-MQ", "t"], ["-MP"], ["-fPIC"], ["-ccbin", "g++"], ["-x", "c++"],
-    ["-march=native"], ["-pthread"], ["-c"], ["-o", "a.o"], ["@rsp"], ["-Xcompiler", "-fopenmp"], ["-UFOO"], ["--sysroot=/x"],
+    ["-march=native"], ["-pthread"], ["-c"], ["-o", "a.o"], ["@rsp"], ["-Xcompiler", "-fopenmp"], ["-UFOO"], ["--sysroot=/x"],  # (-UFOO: FOO is never defined)
     ["-cxx-isystem", "d"], ["-coverage"], ["-fopenmp"], ["-Wl,-rpath,/x"], ["-pipe"], ["-m64"], ["-S"], ["-E"], ["-v"],
     ["-nostdinc"], ["-iquote", "q"], ["-idirafter", "d"], ["-L/x"], ["-lm"], ["-shared"], ["-fno-exceptions"], ["-pedantic"],
     ["-ffast-math"],
@@ -233,6 +234,64 @@ def h_value(v: str, pos: int) -> bool:
     return ok
 
 
+# ---- -D / -U in command-line order; the later option for a macro overrides the earlier one -------------------
+
+OPS = [["-DA"], ["-DA=2"], ["-UA"], ["-DB=x"], ["-UB"], ["-D", "A=3"], ["-U", "A"], ["-DA(x)=x"], ["-UAB"], ["-DAB"]]
+
+
+def _ops_reference(seq):
+    """what a compiler's driver does: definitions and undefinitions applied one after the other"""
+    macros = {}
+    for op in seq:
+        text = op[-1] if len(op) == 2 else op[0][2:]
+        name = text.split("=")[0].split("(")[0]
+        if op[0].startswith("-U"):
+            macros.pop(name, None)
+        else:
+            macros[name] = text
+    return macros
+
+
+def h_override(o1: int, o2: int, o3: int, o4: int, pos: int) -> bool:
+    """
+    pre: o1 == P["first"] and 0 <= o2 < 10 and 0 <= o3 < 10 and 0 <= o4 < 10 and 0 <= pos <= P["n"] and (P["n"] == 4 or o4 == 0)
+    post: _
+    """
+    idx = []
+    for v in (o1, o2, o3, o4):
+        for k in range(10):
+            if v == k:
+                idx.append(k)
+    pp = None
+    for k in range(5):
+        if pos == k:
+            pp = k
+    seq = [OPS[k] for k in idx[: P["n"]]]
+    argv = []
+    for i, op in enumerate(seq):
+        if i == pp:
+            argv += CATALOGUE[P["flag"]]
+        argv += op
+    argv.append("x.c")
+    STATS["compared"] += 1
+    if P.get("_twin"):
+        return False
+    ok, cfgs, rec = _run_parse(argv, untraced=True)
+    if not ok:
+        return False
+    want = _ops_reference(seq)
+    got = {}
+    dup = False
+    for d in cfgs[0].defines:
+        name = d.split("=")[0].split("(")[0]
+        dup = dup or name in got
+        got[name] = d
+    ok = len(cfgs) == 1 and not dup and got == want
+    if P.get("_replay"):
+        LAST.update(argv=argv, expected_macros=want, observed=[(c.pass_name, c.defines) for c in cfgs], warnings=rec.warnings())
+    return ok
+
+
 def h_command(i: int, j: int) -> bool:
     """
     pre: 0 <= i < P["n"] and 0 <= j < 3
@@ -328,6 +387,10 @@ def obligations(tier, known):
     for kind in range(4):
         obs.append(Ob(id="value-attached/%s" % FLAG[kind], kind="ch", module=__name__, func="h_value",
                       params=dict(flag=8, kind=kind, maxlen=(3 if kind >= 2 else 2), attached=True), timeout=300, group="value"))
+    for f in ([14] if tier == "quick" else [8, 14, 26, 46]):
+        for first in range(len(OPS)):
+            obs.append(Ob(id="override/%s/first%s" % (CATALOGUE[f][0], "".join(OPS[first])), kind="ch", module=__name__, func="h_override",
+                          params=dict(flag=f, n=3 if tier == "quick" else 4, first=first), timeout=300, group="override"))
     obs.append(Ob(id="command/shlex", kind="ch", module=__name__, func="h_command", params=dict(n=len(CATALOGUE)), timeout=200,
                   group="command"))
     return obs
